@@ -34,3 +34,25 @@ func Assume(prop string, a ...string) { propAssumptions[prop] = append(propAssum
 func Assumptions(prop string) []string {
 	return append(append([]string(nil), commonAssumptions...), propAssumptions[prop]...)
 }
+
+// extraProps: further properties for which a rule's clause is a necessary
+// condition, beyond the ones named where the rule is defined. (A finding is
+// still charged only to the properties whose API surface reaches the
+// function it sits in, see attrib.go.)
+var extraProps = map[string][]string{
+	"FORMATCONST_KEYORDER": {"C01", "C04", "C09"}, // built-in key order is the map's order
+	"FORMATCONST_LAYER":    {"C04", "C09"},        // layers determine the canonical shape
+	"SIZE":                 {"C09", "C05"},        // Root.Size = number of entries
+	"HASHNAME":             {"C14", "C04"},        // hash and encoding identities are part of the published format
+	"DET":                  {"C14"},
+	"ENCINPUTS":            {"C14", "C04"},
+	"LINKNIL":              {"C06", "C07"},
+	"NILROOT":              {"C10", "C07"},
+	"PURITY":               {"C02", "C10", "C06"},
+	"TRIPLE":               {"C01"},
+	"THRESH":               {"C09", "C05"},
+	"FORMATS":              {"C14"},
+	"CODECSYM":             {"C14"},
+	"ROOTFIELDS":           {"C04"},
+	"CLEANSKIP":            {"C03"}, // the skip is sound only because clean ⇒ already stored
+}
